@@ -73,9 +73,16 @@ type c05Env struct {
 var c05SharedPristine = []string{"s1", "s2", "s3", "s4", "s5", "s6"}
 
 type c05ReqState struct {
-	id   int
-	prog []c05HOp
-	obs  c05Obs
+	id    int
+	prog  []c05HOp
+	obs   c05Obs
+	inner []c05Inner
+}
+
+type c05Inner struct {
+	q   rReq
+	id  int
+	obs c05Obs
 }
 
 const c05Key = "c05-state"
@@ -180,6 +187,29 @@ func (env *c05Env) register(r rRoute) {
 						cur.obs.staleAfter++
 					}
 				})
+			case "nested":
+				// the handler serves another request on the same Echo, synchronously, and then looks at
+				// its own context again: the inner request must have had a context of its own
+				snap := func() string {
+					vals := "PANIC"
+					func() {
+						defer func() { recover() }()
+						vals = strings.Join(c.ParamValues(), ",")
+					}()
+					cur, _ := c.Request().Context().Value(c05CtxKey{}).(*c05ReqState)
+					id := -1
+					if cur != nil {
+						id = cur.id
+					}
+					return fmt.Sprintf("path=%s names=%s values=%s k=%v,%v,%v,%v q=%s req=%d status=%d size=%d committed=%v", c.Path(), strings.Join(c.ParamNames(), ","), vals,
+						c.Get("k0"), c.Get("k1"), c.Get("k2"), c.Get("k3"), c.QueryParam("q"), id, c.Response().Status, c.Response().Size, c.Response().Committed)
+				}
+				before := snap()
+				inner := env.serve(1000+st.id, rReq{Method: "GET", Path: op.S}, nil)
+				if after := snap(); after != before {
+					st.obs.store = append(st.obs.store, "nested-request-clobbered-the-outer-context", before, after)
+				}
+				st.inner = append(st.inner, c05Inner{rReq{Method: "GET", Path: op.S}, 1000 + st.id, inner})
 			case "panic":
 				panic("handler panics midway")
 			case "fail":
@@ -201,6 +231,11 @@ func (env *c05Env) register(r rRoute) {
 }
 
 func (env *c05Env) serve(id int, q rReq, prog []c05HOp) c05Obs {
+	o, _ := env.serve2(id, q, prog)
+	return o
+}
+
+func (env *c05Env) serve2(id int, q rReq, prog []c05HOp) (c05Obs, []c05Inner) {
 	st := &c05ReqState{id: id, prog: prog}
 	func() {
 		defer func() {
@@ -220,7 +255,7 @@ func (env *c05Env) serve(id int, q rReq, prog []c05HOp) c05Obs {
 			st.obs.kind = 2
 		}
 	}()
-	return st.obs
+	return st.obs, st.inner
 }
 
 func c05HOpWire(op c05HOp) string {
@@ -249,6 +284,8 @@ func c05HOpWire(op c05HOp) string {
 		return "10"
 	case "setSharedValues":
 		return wJoin("2", wStrs(c05SharedPristine[:op.A]))
+	case "nested":
+		return "5" // nothing happens to the outer context
 	case "silent":
 		return "11" // like fail for the context: nothing more happens to it
 	}
@@ -297,8 +334,18 @@ func c05Run(ci any) Result {
 		ops = append(ops, "0", wInt(reqID), wStr(s.Req.Method), wStr(s.Req.Path), strings.Join(progW, " "))
 		jobs = append(jobs, job{reqID, *s.Req, s.Prog, append([]rRoute(nil), routes...)})
 		if c.Concurrent == 0 {
-			o := env.serve(reqID, *s.Req, s.Prog)
+			o, inner := env.serve2(reqID, *s.Req, s.Prog)
 			obsParts = append(obsParts, o.wire())
+			for _, in := range inner {
+				tags = append(tags, "nested-request")
+				fresh := c05NewEnv()
+				for _, r := range routes {
+					fresh.register(r)
+				}
+				if want := fresh.serve(in.id, in.q, nil); in.obs.wire() != want.wire() {
+					fail(fmt.Sprintf("request %d nested in request %d (GET %q): handler observes %s, on a fresh Echo %s", in.id, reqID, in.q.Path, in.obs.wire(), want.wire()))
+				}
+			}
 			// model-free oracle: a fresh Echo with the same routes serving only this request
 			fresh := c05NewEnv()
 			for _, r := range routes {
@@ -368,7 +415,7 @@ func c05GenProg(r *rand.Rand) []c05HOp {
 	n := r.Intn(7)
 	var p []c05HOp
 	for i := 0; i < n; i++ {
-		switch r.Intn(13) {
+		switch r.Intn(14) % 13 {
 		case 0:
 			p = append(p, c05HOp{Kind: "set", A: r.Intn(4), B: 1 + r.Intn(9)})
 		case 1:
@@ -396,7 +443,9 @@ func c05GenProg(r *rand.Rand) []c05HOp {
 		case 11:
 			p = append(p, c05HOp{Kind: "fail"})
 		case 12:
-			if r.Intn(2) == 0 {
+			if r.Intn(3) == 0 {
+				p = append(p, c05HOp{Kind: "nested", S: []string{"/", "/a/n1", "/b/n1/n2", "/c/n1/n2/n3", "/files/n", "/nowhere"}[r.Intn(6)]})
+			} else if r.Intn(2) == 0 {
 				p = append(p, c05HOp{Kind: "setSharedValues", A: 1 + r.Intn(6)})
 			} else {
 				p = append(p, c05HOp{Kind: "silent"})
